@@ -54,15 +54,20 @@ UAccept(r) ==
   /\ r.vp_holder # "different"
   /\ r.vp_id \in {"absent", "equal"}
 
-\* which bounds the verifier configured; a bound that is not configured defaults to the CURRENT TIME.  Instants are years:
-\* the explicit bounds lie in the past (latest issuance 2001, earliest expiry 2005), "now" is whenever the check runs (2026+)
-TRows == [part : {"T"}, bounds : {"both", "only_latest_issuance", "only_earliest_expiry", "none"},
-          exp : {"absent", "y1999", "y2010", "y2100"}, iat : {"y2000", "y2003", "y2100"}]
-Year(t) == CASE t = "y1999" -> 1999 [] t = "y2000" -> 2000 [] t = "y2003" -> 2003 [] t = "y2010" -> 2010 [] t = "y2100" -> 2100
+\* which bounds the verifier configured; a bound that is not configured defaults to the CURRENT TIME.  Instants are years;
+\* "now" is whenever the check runs (2026+): explicit bounds lie in the past (2001, 2005) or in the future (2150, 2200), and the
+\* token's dates lie before, between and after them AND on either side of now, so that a bound taken from the wrong option (or
+\* from the clock when it was configured) shows.  The issuance instant travels in `iat` or in `nbf`.
+TRows == [part : {"T"}, latest_issuance : {"unset", "y2001", "y2150"}, earliest_expiry : {"unset", "y2005", "y2200"},
+          exp : {"absent", "y1999", "y2010", "y2100", "y2300"}, iat : {"y2000", "y2003", "y2010", "y2100", "y2180"},
+          carrier : {"iat", "nbf"}]
+Year(t) == CASE t = "y1999" -> 1999 [] t = "y2000" -> 2000 [] t = "y2001" -> 2001 [] t = "y2003" -> 2003 [] t = "y2005" -> 2005
+             [] t = "y2010" -> 2010 [] t = "y2100" -> 2100 [] t = "y2150" -> 2150 [] t = "y2180" -> 2180 [] t = "y2200" -> 2200
+             [] t = "y2300" -> 2300
 Now == 2050                           \* any year between 2010 and 2100 gives the same table
 TAccept(r) ==
-  LET expiry_bound == IF r.bounds \in {"both", "only_earliest_expiry"} THEN 2005 ELSE Now
-      issuance_bound == IF r.bounds \in {"both", "only_latest_issuance"} THEN 2001 ELSE Now IN
+  LET expiry_bound == IF r.earliest_expiry = "unset" THEN Now ELSE Year(r.earliest_expiry)
+      issuance_bound == IF r.latest_issuance = "unset" THEN Now ELSE Year(r.latest_issuance) IN
   /\ (r.exp = "absent" \/ Year(r.exp) >= expiry_bound)
   /\ Year(r.iat) <= issuance_bound
 
